@@ -1,0 +1,101 @@
+//go:build verif
+
+package cosmos
+
+// Contracts for the deductive checker in /verif (comment-only; compiled only with -tags verif).
+// Lib specs: /verif/specs/lib/60_ante.spec (tx_msgs, msg_url, exec_inner_v, grant_auth, auth_url).
+
+/*@
+alias ALD github.com/haqq-network/haqq/app/ante/cosmos.AuthzLimiterDecorator
+
+// m is an Ethereum transaction message (dynamic type *evmtypes.MsgEthereumTx)
+specfunc IsEthMsg(m int) bool = m != nil && typeof(m) == typetag("*github.com/haqq-network/haqq/x/evm/types.MsgEthereumTx")
+specfunc IsExec(m int) bool = m != nil && typeof(m) == typetag("*github.com/cosmos/cosmos-sdk/x/authz.MsgExec")
+specfunc IsGrant(m int) bool = m != nil && typeof(m) == typetag("*github.com/cosmos/cosmos-sdk/x/authz.MsgGrant")
+
+// C06: a Cosmos-route transaction that carries an Ethereum message never reaches the rest of the chain (`next`),
+// it is rejected with an error and the unchanged context.
+func (RejectMessagesDecorator).AnteHandle
+    let msgs = tx_msgs(tx)
+    call next requires noeth: forall k int :: 0 <= k && k < len(tx_msgs(tx)) ==> !IsEthMsg(tx_msgs(tx)[k])
+    call next requires same: tx == old(tx) && ctx == old(ctx) && simulate == old(simulate)
+    ensures rejected: (exists k int :: 0 <= k && k < len(msgs) && IsEthMsg(msgs[k])) ==> err != nil && newCtx == ctx
+    loop 1 invariant idx: 0 <= #i && #i <= len(msgs)
+    loop 1 invariant noeth: forall k int :: 0 <= k && k < #i ==> !IsEthMsg(msgs[k])
+    loop 1 invariant frame: tx == old(tx) && ctx == old(ctx)
+
+// ------------------------------------------------------------------ authz limiter
+// url is one of the type URLs the decorator was built with
+specfunc Disabled(ald ALD, url string) bool = exists k int :: 0 <= k && k < len(ald.disabledMsgTypes) && ald.disabledMsgTypes[k] == url
+
+func NewAuthzLimiterDecorator
+    ensures fields: result.disabledMsgTypes == disabledMsgTypes
+
+func (AuthzLimiterDecorator).isDisabledMsg
+    ensures member: result == Disabled(ald, msgTypeURL)
+    loop 1 invariant idx: 0 <= #i && #i <= len(ald.disabledMsgTypes)
+    loop 1 invariant none: forall k int :: 0 <= k && k < #i ==> ald.disabledMsgTypes[k] != msgTypeURL
+
+// inner messages of the exec message held by interface value m (see `stable` below), type URL granted by a grant message
+uf exec_inner(m int) Msgs
+specfunc GrantURL(m int) string = auth_url(grant_auth(unbox(m, "*github.com/cosmos/cosmos-sdk/x/authz.MsgGrant")))
+
+// The first i messages of msgs are clean: an exec message is clean if all its inner messages are clean as inner messages
+// (at any depth), a grant message if the granted type URL is not disabled, any other message unless it is a disabled type
+// nested inside an exec.
+ghost func Clean(ald ALD, msgs Msgs, inner bool, i int) bool
+    def ite(i <= 0, true, Clean(ald, msgs, inner, i-1)
+            && ite(IsExec(msgs[i-1]), Clean(ald, exec_inner(msgs[i-1]), true, len(exec_inner(msgs[i-1]))),
+               ite(IsGrant(msgs[i-1]), !Disabled(ald, GrantURL(msgs[i-1])),
+                   !(inner && Disabled(ald, msg_url(msgs[i-1]))))))
+
+// ---- what Clean means (these lemmas are the reading of the ghost function used in the report; they compose to any depth)
+specfunc CleanMsg(ald ALD, m int, inner bool) bool = ite(IsExec(m), Clean(ald, exec_inner(m), true, len(exec_inner(m))),
+        ite(IsGrant(m), !Disabled(ald, GrantURL(m)), !(inner && Disabled(ald, msg_url(m)))))
+// every message of a clean prefix is clean
+lemma CleanAt(ald ALD, msgs Msgs, inner bool, i int, j int)
+    requires 0 <= j && j < i && Clean(ald, msgs, inner, i)
+    ensures CleanMsg(ald, msgs[j], inner)
+    induction i above j + 1
+// the inner messages of an exec message in a clean list are clean as inner messages (one level down)
+lemma ExecInnerClean(ald ALD, msgs Msgs, inner bool, j int)
+    requires 0 <= j && j < len(msgs) && Clean(ald, msgs, inner, len(msgs)) && IsExec(msgs[j])
+    ensures Clean(ald, exec_inner(msgs[j]), true, len(exec_inner(msgs[j])))
+    use CleanAt(ald, msgs, inner, len(msgs), j)
+// a list that is clean as inner messages contains no message of a disabled type (e.g. MsgEthereumTx) ...
+lemma InnerDisabledRejected(ald ALD, msgs Msgs, k int)
+    requires 0 <= k && k < len(msgs) && Clean(ald, msgs, true, len(msgs))
+    requires !IsExec(msgs[k]) && !IsGrant(msgs[k])
+    ensures !Disabled(ald, type_url(typeof(msgs[k])))
+    use CleanAt(ald, msgs, true, len(msgs), k)
+// ... and a clean list (inner or top level) contains no grant of a disabled type
+lemma GrantDisabledRejected(ald ALD, msgs Msgs, inner bool, k int)
+    requires 0 <= k && k < len(msgs) && Clean(ald, msgs, inner, len(msgs)) && IsGrant(msgs[k])
+    ensures !Disabled(ald, GrantURL(msgs[k]))
+    use CleanAt(ald, msgs, inner, len(msgs), k)
+// instance: an Ethereum message directly inside a top-level exec makes the transaction unclean when its URL is disabled
+lemma NestedEthRejected(ald ALD, msgs Msgs, j int, k int)
+    requires Disabled(ald, type_url(typetag("*github.com/haqq-network/haqq/x/evm/types.MsgEthereumTx")))
+    requires 0 <= j && j < len(msgs) && IsExec(msgs[j]) && 0 <= k && k < len(exec_inner(msgs[j])) && IsEthMsg(exec_inner(msgs[j])[k])
+    ensures !Clean(ald, msgs, false, len(msgs))
+    use ExecInnerClean(ald, msgs, false, j)
+    use InnerDisabledRejected(ald, exec_inner(msgs[j]), k)
+
+func (AuthzLimiterDecorator).checkDisabledMsgs
+    // message objects are not mutated while the ante handler runs: the inner messages of an exec message object are fixed
+    requires stable: forall m int :: IsExec(m) ==> exec_inner_v(*unbox(m, "*github.com/cosmos/cosmos-sdk/x/authz.MsgExec")) == exec_inner(m)
+    // message values come from the transaction decoder: an exec message value holds a non-nil pointer
+    requires wf: forall m int :: IsExec(m) ==> unbox(m, "*github.com/cosmos/cosmos-sdk/x/authz.MsgExec") != nil
+    ensures clean: result == nil ==> Clean(ald, msgs, isAuthzInnerMsg, len(msgs))
+    loop 1 invariant idx: 0 <= #i && #i <= len(msgs)
+    loop 1 invariant clean: Clean(ald, msgs, isAuthzInnerMsg, #i)
+
+// C06: the rest of the chain (`next`) runs only for a transaction whose message tree is clean; otherwise the transaction is
+// rejected with an error and the unchanged context.
+func (AuthzLimiterDecorator).AnteHandle
+    requires stable: forall m int :: IsExec(m) ==> exec_inner_v(*unbox(m, "*github.com/cosmos/cosmos-sdk/x/authz.MsgExec")) == exec_inner(m)
+    requires wf: forall m int :: IsExec(m) ==> unbox(m, "*github.com/cosmos/cosmos-sdk/x/authz.MsgExec") != nil
+    call next requires clean: Clean(ald, tx_msgs(tx), false, len(tx_msgs(tx)))
+    call next requires same: tx == old(tx) && ctx == old(ctx) && simulate == old(simulate)
+    ensures rejected: !Clean(ald, tx_msgs(tx), false, len(tx_msgs(tx))) ==> err != nil && newCtx == ctx
+@*/
